@@ -652,10 +652,16 @@ def run(chk, replay=None):
             def win(l):
                 best = l[0]
                 for y in l[1:]:
-                    if rel[(y, best)][GT]:
+                    r = rel.get((y, best))
+                    if r is None:               # the harness died on this pair (reported above)
+                        return None
+                    if r[GT]:
                         best = y
                 return best
             w1, w2 = win(cand), win(perm)
+            if w1 is None or w2 is None or (w1, w2) not in rel:
+                chk.count("winner_skipped_harness_died")
+                continue
             nwin += 1
             if not rel[(w1, w2)][EQ]:
                 viol("winner_order_indep", tuple(dict.fromkeys(cand)),
@@ -684,12 +690,18 @@ def run(chk, replay=None):
         level="proof",
         checker_cmd="lake build Vita.C18.Props && lake env lean <#print axioms for every theorem>",
         rule="requests: all pairs of %d boundary scalars; all pairs of %d structured vectors (lengths 0..3); "
-             "random related pairs/triples of lengths 0..5; element-wise operations on table cross products and "
-             "random vectors.  distinct = distinct request lines; each is answered by the compiled vita operators "
-             "and by the Lean definitions generated from the AST, and the C++ answers are checked against the law "
-             "instances and an independent Python reference" % (len(T), len(U)),
-        trusted=["Lean 4.33 kernel", "tools/translate_fitness_ops.py + cxx2lean.py (clang-14 JSON AST -> operator "
-                 "derivation table)", "Vita/C18/Model.lean: lexLt / equal4 as models of libstdc++ "
-                 "std::lexicographical_compare / std::equal; dominating, arithmetic loops (hand-written, tied by the "
-                 "differential run)", "law KeyMono: IEEE-754 comparison of non-NaN doubles = comparison of dkey "
-                 "(spot-checked on all table pairs + random patterns each run)", "g++ 12.2 / ASan+UBSan build"])
+             "random related pairs/triples of lengths 0..5; element-wise operations, almost_equal, the predicates "
+             "and operator<< on table cross products and random vectors.  distinct = distinct request lines; each "
+             "is answered by the compiled vita functions and by the Lean terms generated from the BODIES in the "
+             "AST (loop language of Loop.lean), and the C++ answers are checked against the law instances and an "
+             "independent Python reference" % (len(T), len(U)),
+        trusted=["Lean 4.33 kernel", "tools/translate_fitness_ops.py + cxx2lean.py (clang-14 JSON AST -> bodies as "
+                 "terms of the loop language; refuses unknown shapes)", "Vita/C18/Loop.lean: meaning of the loop "
+                 "combinators (forIdx, rd, wr, call) and of the library algorithms the bodies call "
+                 "(std::lexicographical_compare, std::equal, all_of/any_of, inner_product, max, memcmp, copy into "
+                 "infix_iterator; operator[] / size / begin / end / insert-at-end / reserve of the containers), tied by "
+                 "the differential run", "tools/fitness_users.py (clang-query-14 AST matchers) and "
+                 "tools/tu/fitness_users_tu.cc (which templates are instantiated)", "law KeyMono: IEEE-754 comparison "
+                 "of non-NaN doubles = comparison of dkey; a > b is b < a, a >= b is b <= a, a != b is !(a == b) "
+                 "(spot-checked on all table pairs + random patterns each run)", "g++ 12.2 / ASan+UBSan build",
+                 "Python floats / '%g' as IEEE doubles and the default ostream format (reference oracle)"])
